@@ -226,6 +226,9 @@ func TrimPrefix(s, prefix []byte) []byte {
 		}
 		return s
 	}
+	if i < len(prefix) {
+		return s
+	}
 	return s[i:]
 
 hasUnicode:
